@@ -8,20 +8,20 @@ props = {json.loads(l)["id"]: json.loads(l) for l in open(os.path.join(HERE, "pr
 ob = json.load(open(os.path.join(HERE, "lean", "obligations.json")))
 
 TABLE = {
- "C01": ("8.1", "Lean theorems J2M.C01.generate_sound(_names) (every sample inhabits the inferred type, with hashStr injectivity J2M.HashInj.hashStr_inj discharging de-duplication) over the model of detect/DUnion/merge_field_sets/optimize/resolve; stage-wise differential tie (detect, mkunion, hash, mergefs, optimize, generate, pipeline, render) to the code; falsifier execs the emitted module and checks every sample (structural + pydantic parse_obj)",
-         "registry- and render-stage soundness is carried by the pipeline/render tie (byte-equal text) and the falsifier, not yet by a theorem; hypotheses: JSON objects have distinct keys, acyclic replaces relation, ReplacesSound (IntString ⊆ FloatString), registry kind names are identifiers; keys in C11's documented domain"),
+ "C01": ("8.1", "Lean theorems J2M.C01.generate_sound(_names) (every sample inhabits the type generate infers, with hashStr injectivity J2M.HashInj.hashStr_inj discharging de-duplication) and J2M.C01R.registry_sound / mergeModels_sound / processTy_sound (acceptance is preserved through process_meta_data and merge_models, for graphs with pointers and cycles) over the model of detect/DUnion/merge_field_sets/optimize/resolve/registry; stage-wise differential tie (detect, mkunion, hash, mergefs, optimize, generate, pipeline, render) to the code; falsifier execs the emitted module and checks every sample (structural + pydantic parse_obj)",
+         "render-stage soundness (field filters, literal limit, per-framework view of a type) is carried by the render tie (byte-equal text), J2M.C04.typing_denotes and the falsifier, not by one composed theorem; hypotheses: JSON objects have distinct keys, acyclic replaces relation, ReplacesSound (IntString ⊆ FloatString), registry kind names are identifiers; keys in C11's documented domain"),
  "C02": ("8.2", "per-function tightness theorems J2M.C02.* (merge_opt_iff, mkUnion_members_subset/cover, detect_unknown_only_empty, optimize_no_new_atoms, generate_opt_only_if) + tie; falsifier routes every sample value down the real registry graph and checks each position",
          "the composed statement C02_tight for the whole pipeline is partial: root-level optionality and per-function lemmas are proved, deeper positions rest on the tie and the falsifier"),
  "C03": ("8.3", "theorems on names/layout (J2M.C03/C11/C12: blacklist facts by kernel evaluation over the blacklist extracted from the code on every run, labels never blacklisted, sort_fields required-before-optional, flat layout is a permutation of the registry) + per-program translation validation: emitted text equals the Lean model's text byte for byte, and the falsifier compiles, execs and resolves every annotation",
          "scopeOk over a Python AST model is not formalised; 'executes under CPython' is observed per explored program (T5); nested layout claimed for trees"),
  "C04": ("8.4", "J2M.C04.typing_denotes / imports_exact / field_line_* / alias_iff_renamed / alias_roundtrip / metadata_roundtrip (the annotation text is the print of the denoted typing term; alias and repr texts lex back to the exact key, for all strings) + byte-equal render tie; falsifier compares the frameworks' own field tables with an independent rendering of the registry",
          "CPython/typing/pydantic evaluate the text the way the lexer and Ann models say (validated per explored program)"),
- "C05": ("8.5", "J2M.C05.closure_components / closure_terminates / closure_total: for every symmetric similarity table and every n the grouping loop of merge_models terminates within n+2 passes with exactly the connected components that have an edge; tie: closure op on all tables n<=5 (thorough: sample of n=6) and pipeline stage with real comparators at the thresholds; falsifier: union-find vs registry",
-         "percent thresholds as exact rationals of the float (T4); merged-fields/no-dangling-pointer clauses rest on tie + falsifier"),
+ "C05": ("8.5", "J2M.C05.closure_components / closure_terminates / closure_total (for every symmetric similarity table and every n the grouping loop of merge_models terminates within n+2 passes with exactly the connected components that have an edge) and J2M.C05R.C05_merge_iff / mergeModels_spec / mergeGroup_spec / no_dangling / cmp_any / cmp_symmetric (two models end up in one class iff chained by the configured comparators on their original key sets; merged key set = union; untouched models unchanged; replacement list; every reference registered); tie: closure op on all tables n<=5 (thorough: sample of n=6) and pipeline stage with real comparators at the thresholds; falsifier: union-find vs registry",
+         "percent thresholds compared as the decimal fraction they denote (T4: agrees with correctly rounded float division below 2^26 keys)"),
  "C06": ("8.6", "the Lean model is a function of (samples, options): every set-ordered step is proved order-free (J2M.C06.distinctWords_perm, sortStrings_perm, …) or sorted; tie: implementation text equals the model's single answer; falsifier renders each case in fresh processes under 4/16 PYTHONHASHSEED values",
          "site inventory (AST scan of set constructions / next(iter())) compared with the committed table on every run; a new site is reported as a broken correspondence"),
- "C07": ("8.7", "J2M.C07.* (key set and optionality of merge_field_sets invariant under permutation/duplication; DUnion members as a set under hash injectivity) + generate/pipeline tie on permuted and duplicated sample lists; falsifier canonicalises the real registry graph (bisimulation from the roots) for all permutations of <=4 samples",
-         "C07_generate_perm for the whole pipeline is partial (per-function invariance proved; composition rests on tie + falsifier)"),
+ "C07": ("8.7", "J2M.C07P.generate_perm (sample lists with the same set of samples — permutation or repetition — give types equal up to field order and union member order; 4 kLoC development: mergeFieldSets_equiv, optimize_congr, resolve_perm) and J2M.C07.* per-function invariance + generate/pipeline tie on permuted and duplicated sample lists; falsifier canonicalises the real registry graph (bisimulation from the roots) for all permutations of <=4 samples",
+         "proved for the generator (generate_perm); invariance of the registry stage (which models merge) under sample order rests on C05R.C05_merge_iff being a function of key sets + the tie and the falsifier"),
  "C08": ("8.8", "J2M.C08.optimize_nf / optimize_nfc / optimize_idem / optimize_twice / generate_second_pass / mkUnion_flat_nodup: results of simplification are in normal form and a further pass is the identity, never failing except by comparison-recursion; tie: optimize x1..3 and DUnion on all multisets <=3 of the 37-type universe (thorough) + registry second pass; falsifier re-optimises the real registry and scans annotations",
          "Raw (what detect/merge produce) is a hypothesis with reachability lemmas (detect_raw, merge_raw)"),
  "C09": ("8.9", "J2M.C09.detect_first_match / resolve_covers / resolve_single_sound / disabled_never_appear(_generate) / int_roundtrip / bool_roundtrip; tie: detect/resolve/generate on the string grammar x registries, exact int/bool parser models vs CPython; falsifier re-runs every registered parser and the render/re-parse round trip",
